@@ -11,11 +11,11 @@ trap cleanup EXIT
 cd $WT
 DEMOPKG=./$(dirname $DEST)
 cp $MD/demo_test.go $DEST
-echo "== demo on clean tree"; go test -vet=off -count=1 -run "$RUN" $DEMOPKG 2>&1 | tail -3
+echo "== demo on clean tree"; go test -vet=off -count=1 -run "$RUN" $DEMOPKG > /tmp/mt-$$.clean 2>&1; echo "SUMMARY demo-clean rc=$? (want 0)"; tail -3 /tmp/mt-$$.clean
 if ! git apply $MD/patch.diff; then echo "PATCH DOES NOT APPLY"; exit 3; fi
-echo "== demo on patched tree"; go test -vet=off -count=1 -run "$RUN" $DEMOPKG 2>&1 | tail -4
+echo "== demo on patched tree"; go test -vet=off -count=1 -run "$RUN" $DEMOPKG > /tmp/mt-$$.pat 2>&1; echo "SUMMARY demo-patched rc=$? (want non-0)"; grep -m3 -E "^\s+(---|.*_test.go:)|Error:|FAIL" /tmp/mt-$$.pat; rm -f /tmp/mt-$$.clean /tmp/mt-$$.pat
 rm -f $DEST
-echo "== existing tests on patched tree: $PKGS"; go test -p 6 -vet=off -count=1 $PKGS 2>&1 | grep -v "no test files" | tail -12
+echo "== existing tests on patched tree: $PKGS"; go test -p 6 -vet=off -count=1 $PKGS > /tmp/mt-$$.ex 2>&1; echo "SUMMARY existing-tests-patched rc=$? (want 0)"; grep -v "no test files" /tmp/mt-$$.ex | tail -8; rm -f /tmp/mt-$$.ex
 cd /verif
 for P in "$@"; do
   if [ "$P" = thorough ] || [ "$P" = quick ]; then TIER=$P; continue; fi
